@@ -16,6 +16,8 @@ CHECKS = {
          "The chained hash is checked metamorphically (function of content), never re-implemented. 'Different rows or deletion records => different logs' is evaluated on rows and deletion records (references are not part of the log by design)."),
  "C11": ("repl", "exploration", "After every step, on every node, no row or reference is stored at the deleted or an older version while that node holds its deletion record; after heal the row is absent and the record present everywhere.",
          "Rows updated elsewhere to a version newer than the deleted one are outside the statement. Multi-entity rooms inherit the open summary-blindness finding of C03."),
+ "C15": ("model", "exploration", "Two nodes holding data; sequences of data-model versions built from valid and invalid edits (also a version valid for one entity and invalid for another) applied at run time or at restart, with restarts on the same model in between: accepted versions keep every row readable with the same values under the same names, identifiers never change or collide and both nodes agree on them; refused versions change nothing (running model, stored model, rows, next requests).",
+         "The verdict of a run-time update is read from the request itself (GraphDatabaseService::update_data_model drops it). Hash-map seeds differ per run and per map."),
  "C16": ("phase", "exploration", "2-3 mutations of one row in flight together on a live node (concurrent callers or the mutation stream); the simulator decides with the batch gate whether each later mutation is read before or after the earlier ones are written; the final row must equal the acknowledged mutations applied serially in some order.",
          "Open known finding: no per-row serialisation, so every schedule in which two mutations are in flight together loses a change; schedules where mutations run one at a time are checked in full (a lost update there is a new violation)."),
  "C17": ("repl", "exploration", "At every barrier each vocabulary token is searched on every node and compared with the node's own current text (plain query of the same node); shapes distinguish how the stored version arrived.",
@@ -58,6 +60,7 @@ def main():
      "crash":"one real node (+ a prepared peer) under the batch gate and the writer fault points; in-process crash and restart on the same files",
      "rights":"2-4 identities sharing rooms; room histories, every operation shape, barriered pulls, clock skew; independent rights model as oracle",
      "byz":"honest victim(s) facing a scripted Byzantine peer / man-in-the-middle on the simulated transport",
+     "model":"data-model version sequences at run time and at restart on two nodes with different hash-map seeds",
      "phase":"read / validate+sign / write phases of 2-3 mutations on one row under a seeded scheduler",
      "lock":"real RoomLockService actor under seeded message schedules with abstract clients",
      "serve":"honest server facing a requester of varying membership through the real connection services",
